@@ -85,6 +85,23 @@ theorem members_in_declared_order (cfg : Cfg) (I : Iface) (cns k : Text) (t : Ty
   ⟨membersToParent_cons facts08 cfg I cns k t v fs vs,
    fun e he => (memberNodes_nodeOk facts08 cfg I cns k t v e he).1⟩
 
+/-- both emission paths — building `ctx.out_document` and writing incrementally to `ctx.out_stream` —
+    produce the same element tree (switch `streamSameTree`, measured with a witness and compared with the
+    model on every XmlDocument response in T2), so everything above holds for streamed output too -/
+theorem stream_emission_same_tree (cfg : Cfg) (I : Iface) (ns name : Text) (t : Ty) (v : Val) :
+    encodeStream facts08 factsXml cfg I ns name t v = encode facts08 cfg I ns name t v := by
+  have h : factsXml.streamSameTree = true := by decide
+  simp [encodeStream, h]
+
+/-- streamed polymorphic output carries the type marker and is read back as the same subclass -/
+theorem poly_roundtrip_stream (cfg : Cfg) (hpoly : cfg.polymorphic = true) (hv : cfg.validator ≠ .soft)
+    (hP : cfg.parseXsiType = true) (I : Iface) (hI : ifaceWf I = true) (ns name : Text) (t : Ty)
+    (ht : tyWf t = true) (v : Val) (hc : okOneX I true false t v = true) (hf : fitsV facts08 v = true) :
+    ∃ e, encodeStream facts08 factsXml cfg I ns name t v = [e] ∧
+      decode facts08 factsXml cfg I t e = .ok (normOneX I t v) := by
+  rw [stream_emission_same_tree]
+  exact poly_roundtrip cfg hpoly hv hP I hI ns name t ht v hc hf
+
 /-! ### non-vacuity -/
 
 def exBase : ClassDef := ⟨"B".toList, "urn:x".toList, none, [("x".toList, .prim .boolean {})]⟩
